@@ -23,9 +23,14 @@ SETTINGS = {
                          [0, -14, -20, -34, 40], 8, 400)},
 }
 MODE_OF = {"C08": "cols", "C09": "scale", "C10": "rows"}
+# C09: scales at which only the UPGrad reg_eps ladder is run.  With c_i in {1, 2^10, 2^20} and |g_i| of order 1..5,
+# 2^-20 puts the default norm_eps = 1e-4 between the rows scaled by 1 (1e-6) and by 2^10 (1e-3); 2^-10 (a regular
+# scale) does the same for norm_eps = 1e-2, 2^-30 for 1e-6 (and for 1e-4 between 2^10 and 2^20).
+LADDER_SCALES = {"quick": [-20], "thorough": [-20, -30, -17]}
 
 
-def make_jobs(pid: str, scn: list[dict], scales: list[int], seed: int, chunk: int) -> list[dict]:
+def make_jobs(pid: str, scn: list[dict], scales: list[int], seed: int, chunk: int,
+              ladder_scales: list[int] | None = None) -> list[dict]:
     by: dict[int, list[dict]] = {}
     for s in scn:
         by.setdefault(s["id"], []).append(s)
@@ -34,7 +39,7 @@ def make_jobs(pid: str, scn: list[dict], scales: list[int], seed: int, chunk: in
         group = by[iid]
         for i in range(0, len(group), chunk):
             jobs.append({"pid": pid, "scn": group[i:i + chunk], "scales": scales, "seed": seed,
-                         "cagrad": False})
+                         "cagrad": False, "ladder_scales": ladder_scales or []})
     # the conic-solver aggregator is ~50x slower than the others: every 8th job, first scale only
     for k, j in enumerate(jobs):
         if k % 8 == 0:
@@ -51,7 +56,7 @@ def run_sc(ctx: Ctx, pid: str) -> dict:
     rng = random.Random(ctx.seed)
     picked = sample_scenarios(scn, budget, rng, keep=lambda s: s["steps"] == 0)
     ctx.extra["scenarios_replayed"] = len(picked)
-    jobs = make_jobs(pid, picked, scales, ctx.seed, chunk)
+    jobs = make_jobs(pid, picked, scales, ctx.seed, chunk, LADDER_SCALES[ctx.tier] if pid == "C09" else None)
     import torchjd.aggregation  # noqa: F401  (imported once, before the workers fork)
     results = pmap(run_job, jobs, chunksize=2)
     margin: dict = {}
